@@ -156,7 +156,8 @@ func c05Point(t vlib.TB, p *edwards.Point) *Point {
 	x, y := edwards.Ed448Curve.Affine(p)
 	P, err := FromAffine(c05Elt(x), c05Elt(y))
 	if err != nil {
-		t.Fatalf("SELFTEST-FAIL FromAffine refused a curve point of the reference: %v", err)
+		// outside C05 (Ed448 verification decodes with FromBytes, not FromAffine): the check cannot proceed
+		t.Fatalf("SELFTEST-FAIL circl misbehaved outside C05: goldilocks.FromAffine(x=%x, y=%x) refused a point of the prime-order group computed by the reference: %v", x, y, err)
 	}
 	return P
 }
